@@ -241,7 +241,7 @@ def cases(draw):
         files.append({"units": units, "in_dir": draw(st.integers(0, 5)) == 0})
     opts = {
         "a": draw(st.sampled_from([1, 1, 0.5, 2.0, 0.0, 3.0])),
-        "b": draw(st.sampled_from([1, 1, 0.5, 2.0, 3.0])),
+        "b": draw(st.sampled_from([1, 1, 0.5, 2.0, 3.0, 0.0])),
         "e": draw(st.sampled_from([1, 1, 0.5, 2.0])),
         "p": draw(st.sampled_from([0.3, 0.5, 0.4, 0.9])),
         "n": draw(st.integers(2, 6)),
